@@ -113,3 +113,80 @@ Section WtaOnVolume.
     rewrite Hn in Hj by lia. discriminate.
   Qed.
 End WtaOnVolume.
+
+(* ------------------------------------------------------------------ restriction to a smaller interval *)
+
+(* Nested scalar intervals [a, b] in [a', b'], same images: if the winner of the run on [a', b'] lies in
+   [a, b], the run on [a, b] has the same winner (same disparity), for every pixel, measure, valuation,
+   block sizes, min or max.  (The relation the harness tests on the real code.) *)
+Theorem wta_restriction : forall val m inp a b a' b' mx B B' invalid invalid' conf conf' mask mask' r c kJ,
+  1 <= B -> 1 <= B' -> 0 < i_s inp -> a <= b -> a' <= a -> b <= b' ->
+  0 <= r < i_ny inp -> 0 <= c < i_nx inp ->
+  0 <= kJ < nb_disp (i_s inp) a b ->
+  mvolume m (scalar_grids inp a' b') a' b' r c (kJ + (a - a') * i_s inp) <> None ->
+  wta_on_volume val m (scalar_grids inp a' b') a' b' mx B' invalid' conf' mask' r c
+    = Some (sample_q (i_s inp) a' (kJ + (a - a') * i_s inp)) ->
+  wta_on_volume val m (scalar_grids inp a b) a b mx B invalid conf mask r c = Some (sample_q (i_s inp) a kJ).
+Proof.
+  intros val m inp a b a' b' mx B B' invalid invalid' conf conf' mask mask' r c kJ
+         HB HB' Hs Hab Ha Hb Hr Hc HkJ HcJ HwJ.
+  set (s := i_s inp) in *. set (sh := (a - a') * s) in *.
+  assert (Hab' : a' <= b') by lia.
+  assert (SL : forall k, 0 <= k < nb_disp s a b ->
+            0 <= k + sh < nb_disp s a' b' /\ disp_scaled s a k = disp_scaled s a' (k + sh)
+            /\ mvolume m (scalar_grids inp a b) a b r c k = mvolume m (scalar_grids inp a' b') a' b' r c (k + sh)).
+  { intros k Hk. destruct (slice_index s a b a' b' k ltac:(lia) Ha Hb Hk) as [R E]. split; [exact R|]. split; [exact E|].
+    apply (cost_indep_of_interval m inp a b a' b' r c k); [fold s; lia|assumption|assumption|exact Hk]. }
+  destruct (SL kJ HkJ) as (RJ & EJ & VJ).
+  destruct (mvolume m (scalar_grids inp a' b') a' b' r c (kJ + sh)) as [vJ|] eqn:EvJ; [|congruence].
+  (* the two winners *)
+  destruct (wta_within_interval val m (scalar_grids inp a b) a b mx B invalid conf mask HB Hs Hab r c kJ vJ Hr Hc
+              HkJ ltac:(now rewrite VJ)) as (kI & vI & HkI & HoI & EvI & _ & _ & _ & BestI).
+  destruct (wta_within_interval val m (scalar_grids inp a' b') a' b' mx B' invalid' conf' mask' HB' Hs Hab' r c
+              (kJ + sh) vJ Hr Hc RJ EvJ) as (kW & vW & HkW & HoW & EvW & _ & _ & _ & BestW).
+  cbn [scalar_grids with_grids i_s] in *. fold s in HoI, HoW, HkI, HkW, BestI, BestW.
+  (* the J winner is kJ + sh *)
+  assert (kW = kJ + sh).
+  { rewrite HwJ in HoW. injection HoW as E. unfold sample_q, disp_scaled in E.
+    assert (E2 : a' * s + (kJ + sh) = a' * s + kW) by congruence. lia. }
+  subst kW. assert (vW = vJ) by congruence. subst vW.
+  destruct (SL kI HkI) as (RI & EI & VI). rewrite EvI in VI.
+  (* ties: use the "first index" clause of both runs through wta_winner_all *)
+  pose proof (BestI kJ vJ HkJ ltac:(now rewrite VJ)) as LIJ.
+  pose proof (BestW (kI + sh) vI RI ltac:(now symmetry)) as LJI.
+  rewrite HoI. f_equal. f_equal.
+  (* first-index clauses *)
+  assert (CI : Spec.Wta.computable (pixel_costs val m (scalar_grids inp a b) a b r c) (Z.to_nat kJ) (Fin (val vJ))).
+  { unfold Spec.Wta.computable. rewrite pixel_costs_nth_error by (cbn [scalar_grids with_grids i_s]; fold s; lia).
+    now rewrite VJ. }
+  assert (CW : Spec.Wta.computable (pixel_costs val m (scalar_grids inp a' b') a' b' r c) (Z.to_nat (kI + sh)) (Fin (val vI))).
+  { unfold Spec.Wta.computable. rewrite pixel_costs_nth_error by (cbn [scalar_grids with_grids i_s]; fold s; lia).
+    now rewrite <- VI. }
+  destruct (WtaP.wta_winner_all mx B (i_ny inp) (i_nx inp) (disp_axis s a b) invalid
+              (pixel_costs val m (scalar_grids inp a b) a b) conf mask r c HB Hr Hc
+              (costs_nonempty val m (scalar_grids inp a b) a b conf mask Hs Hab r c)
+              (costs_no_inf val m (scalar_grids inp a b) a b mx r c) _ _ CI)
+    as (n1 & e1 & L1 & C1 & O1 & _ & T1).
+  destruct (WtaP.wta_winner_all mx B' (i_ny inp) (i_nx inp) (disp_axis s a' b') invalid'
+              (pixel_costs val m (scalar_grids inp a' b') a' b') conf' mask' r c HB' Hr Hc
+              (costs_nonempty val m (scalar_grids inp a' b') a' b' conf' mask' Hs Hab' r c)
+              (costs_no_inf val m (scalar_grids inp a' b') a' b' mx r c) _ _ CW)
+    as (n2 & e2 & L2 & C2 & O2 & _ & T2).
+  rewrite pixel_costs_length in L1, L2. cbn [scalar_grids with_grids i_s] in L1, L2. fold s in L1, L2.
+  (* identify n1 = kI, n2 = kJ + sh from the outputs *)
+  unfold wta_on_volume in HoI, HwJ. cbn [scalar_grids with_grids i_s i_ny i_nx] in HoI, HwJ. fold s in HoI, HwJ.
+  rewrite O1 in HoI. rewrite O2 in HwJ.
+  replace n1 with (Z.to_nat (Z.of_nat n1)) in HoI by lia. rewrite disp_axis_nth in HoI by lia.
+  replace n2 with (Z.to_nat (Z.of_nat n2)) in HwJ by lia. rewrite disp_axis_nth in HwJ by lia.
+  injection HoI as E1. injection HwJ as E2. unfold disp_scaled in E1, E2.
+  assert (N1 : Z.of_nat n1 = kI) by lia. assert (N2 : Z.of_nat n2 = kJ + sh) by lia.
+  unfold Spec.Wta.computable in C1, C2.
+  replace n1 with (Z.to_nat kI) in C1 by lia. replace n2 with (Z.to_nat (kJ + sh)) in C2 by lia.
+  rewrite pixel_costs_nth_error in C1 by (cbn [scalar_grids with_grids i_s]; fold s; lia).
+  rewrite pixel_costs_nth_error in C2 by (cbn [scalar_grids with_grids i_s]; fold s; lia).
+  rewrite EvI in C1. rewrite EvJ in C2. cbn [omap] in C1, C2.
+  assert (e1 = Fin (val vI)) by congruence. assert (e2 = Fin (val vJ)) by congruence. subst e1 e2.
+  pose proof (T1 (Z.to_nat kJ) (Fin (val vJ)) CI LJI) as P1.
+  pose proof (T2 (Z.to_nat (kI + sh)) (Fin (val vI)) CW LIJ) as P2.
+  lia.
+Qed.
